@@ -37,8 +37,8 @@ def make_instrument(kind):
 
 def shards(tier, seed):
     out = []
-    n = 3000 if tier == "quick" else 100000
-    parts = 6 if tier == "quick" else 16
+    n = 6400 if tier == "quick" else 100000
+    parts = 8 if tier == "quick" else 16
     for i in range(parts):
         out.append({"name": "histories-%d" % i, "kind": "hist", "n": n // parts, "weight": 8})
     depth = 3 if tier == "quick" else 4
